@@ -116,7 +116,76 @@ def check_c16(tier: str, seed: int) -> int:
                     "division only by matrices with unit-modulus entries"])
 
 
-CHECKS = {"C12": check_c12, "C16": check_c16}
+# ------------------------------------------------------------------------------------ C14
+def check_c14(tier: str, seed: int) -> int:
+    """Prng.tla (exhaustive): keys are fresh, observations are a function of (seed, program).
+    Binding: (i) clause KeyFresh judged by TLC on every line of unforced executions (the real
+    sampler runs, keys are logged at Config.random_key and at jax.random.choice, both must agree);
+    (ii) twin executions judged by Twin.tla."""
+    import re
+    from concurrent.futures import ThreadPoolExecutor
+
+    from . import tracecheck
+
+    t0 = time.time()
+    st, _ = tlcrun.check("Prng", "Prng.cfg", workers=8, timeout=600)
+    nprog, nsteps, npairs, psteps = (32, 22, 16, 16) if tier == "quick" else (320, 40, 160, 30)
+    tdir = os.path.join(OUT, f"traces_C14_{tier}")
+    import shutil
+
+    shutil.rmtree(tdir, ignore_errors=True)
+    os.makedirs(tdir)
+    dfiles = tracecheck.run_drivers(seed, nprog, nsteps, procs=12, outdir=tdir, profile="measure")
+    tfail, tstats = tracecheck.validate(dfiles, procs=12)
+    viols = [v for v in tfail if "C14" in v["props"]]
+    # twins
+    procs = 8
+    per = max(1, npairs // procs)
+
+    def one(k: int) -> str:
+        path = os.path.join(tdir, f"twins{k}.ndjson")
+        rc, txt = _py("harness.twins", [str(seed * 50 + k), str(per), str(psteps), path])
+        if rc != 0:
+            raise RuntimeError("twin driver failed:\n" + txt[-2000:])
+        return path
+
+    with ThreadPoolExecutor(max_workers=procs) as ex:
+        twin_files = list(ex.map(one, range(procs)))
+    pairs = draws = 0
+    samples = []
+    for p in twin_files:
+        rc, out = tlcrun.tlc("Twin", "Twin.cfg", ["-workers", "1"], timeout=1200, env={"TRACE_FILE": p})
+        m = re.search(r'<<"CONSUMED", (\d+)>>', out)
+        if not m or "Error:" in out:
+            raise tlcrun.TLCError("twin validation failed:\n" + out[-2000:])
+        pairs += int(m.group(1))
+        for ln in open(p):
+            r = json.loads(ln)
+            draws += sum(len(o["draws"]) for o in r["a"])
+            if len(samples) < 3:
+                samples.append({"pair": r["pair"], "library_seed": r["seed"], "fresh_process_twin": r["fresh"],
+                                "events": [f"{o['a']}/{o['entry']} ret={o['ret']} draws={len(o['draws'])}" for o in r["a"]][:14]})
+        for mm in re.finditer(r'<<"TWIN", (\d+), "([\w-]+)", (\d+)>>', out):
+            viols.append({"kind": "TwinEqual", "a": mm.group(2), "g": None, "cell": "", "flags": {}, "en": None,
+                          "case": {"pair": int(mm.group(1)), "file": p},
+                          "detail": f"pair {mm.group(1)} ({mm.group(2)} twin) first differs at observation {mm.group(3)}"})
+    if draws < 10:
+        print("MACHINERY-FAILURE property=C14: the twin programs made almost no random decisions")
+        return 2
+    cov = {"states": st["distinct"] + tstats["lines"], "transitions": st["generated"] + tstats["lines"],
+           "traces_validated_against_impl": pairs + nprog, "samples": samples,
+           "evaluations": pairs + tstats["lines"], "distinct_nontrivial": pairs,
+           "twin_pairs": pairs, "random_decisions_in_twin_programs": draws,
+           "unforced_trace_lines_judged_for_key_freshness": tstats["lines"],
+           "rule": "a twin pair = one seeded random program executed after two different histories in one process (and every "
+                   "third pair also in a fresh process); observations = per call: outcomes, consumed key digests, byte digests "
+                   "of every stored state; pairs are distinct by (library seed, program seed)"}
+    return _finish("C14", tier, seed, t0, "model_checking", cov, viols,
+                   ["statistical independence of successive draws is established through key distinctness (the mechanism), "
+                    "not through statistics", "bit-identical floating point results assume the deterministic CPU backend of jax"])
+
+
+CHECKS = {"C12": check_c12, "C16": check_c16, "C14": check_c14}
 
 _TECH = ("finite enumeration by TLC of an exact TLA+ definition (Gates.tla / Interp.tla), identities of the definition checked "
          "by TLC, every enumerated case replayed into the real library and compared entry-wise")
@@ -126,6 +195,23 @@ MANIFEST_ROWS = {
             "constructors, compared entry-wise with the exact matrices of Gates.tla; the identities the property names are "
             "checked on Gates.tla by TLC (and, beyond the exact block, numerically on the library's own matrices)",
             "displacement / squeezing entries are outside Z[i,sqrt2] and are not compared"),
+    "C14": ("model_checking",
+            "TLA+ model Prng.tla (product of two runs) model-checked by TLC; clause KeyFresh of PWTrace.tla judged by TLC on "
+            "every line of unforced executions; twin executions judged by Twin.tla", "5/C14",
+            "keys handed to the sampler are logged at Config.random_key and at jax.random.choice: never reused between two "
+            "set_seed calls; the same seeded program observed after different histories and in a fresh process yields "
+            "identical outcomes, key sequences and final state digests",
+            "independence via key distinctness, not statistics"),
+    "C15": ("model_checking",
+            "TLA+ specification PW.tla model-checked by TLC; its behaviours replayed into the real library with ONE Operation "
+            "object per (type, parameters) reused for every application; clauses OpStable / OpParamsStable / "
+            "UserArraysUntouched of PWTrace.tla judged by TLC on the recorded executions", "5/C15",
+            "every application of a reused Operation object (to targets of different Fock dimensions, in different "
+            "containers, with other operations constructed and applied in between) must give exactly the joint state the "
+            "specification computes from (type, parameters) alone; descriptions of operation objects and digests of "
+            "user-supplied arrays must not change",
+            "lattice operators; the per-object description is what harness/tracer.py projects (type, parameter digest, "
+            "accepted operand types)"),
     "C16": ("model_checking", _TECH, "5/C16",
             "the interpreter is transcribed as a recursive evaluator in Interp.tla; TLC enumerates all trees to depth 2 and "
             "exports exact values; each tree is evaluated by the real interpreter with every leaf kind; inputs must be "
